@@ -415,6 +415,8 @@ class Parser:
             args[0] = copy.copy(args[0])
             c = args[0].txt[0]
             args[0].txt = args[0].txt[1:]
+            if not args[0].pos_fix:
+                args[0].pos += 1
 
         if not c.strip():
             c = ' '.join(self.parms.accent_macros[tok.txt])
